@@ -6,7 +6,7 @@
    for every set-up order, is compared with the implementation on all
    permutations of the set-up steps. *)
 From Coq Require Import List ZArith Bool.
-From EosV Require Import lib.AList gen.T_eos model.World model.Ops proofs.Misc_p.
+From EosV Require Import lib.AList gen.T_eos model.World model.Calc model.Ops proofs.Misc_p proofs.Ks_p.
 Import ListNotations.
 
 Theorem C13_retarget_messages : forall w i it f old new pe,
@@ -26,5 +26,46 @@ Theorem C13_same_target_noop : forall s i new it,
   get_item (fst s) i = Some it -> onat_eqb (i_target it) new = true -> target_set_op s i new = (s, ROk).
 Proof. exact target_same_noop. Qed.
 
+(* ---- the projection register (eos/calculator/projection.py): projector -> targets and target -> projectors
+   are two indexes of one relation. [PINV c]: both are well-formed keyed storages (keys unique, sets
+   duplicate-free) and t is among the targets of p exactly when p is among the projectors of t. The engine
+   model changes the two indexes only through apply_projector / unapply_projector (model/Calc.v). ---- *)
+Theorem C13_register_indexes_agree_after_any_calls : forall ops, PINV (fold_left pstep ops empty_calc).
+Proof. exact projection_register_consistent_from_empty. Qed.
+
+(* applying adds exactly the given targets to exactly that projector; unapplying removes exactly them *)
+Theorem C13_apply_adds_exactly : forall c p tgts, PINV c ->
+  PINV (apply_projector c p tgts) /\
+  forall q t, In t (ks_get proj_eqb (c_ptgts (apply_projector c p tgts)) q) <->
+              (q = p /\ In t tgts) \/ In t (ks_get proj_eqb (c_ptgts c) q).
+Proof. exact apply_projector_spec. Qed.
+Theorem C13_unapply_removes_exactly : forall c p tgts aliased, PINV c ->
+  PINV (unapply_projector c p tgts aliased) /\
+  forall q t, In t (ks_get proj_eqb (c_ptgts (unapply_projector c p tgts aliased)) q) <->
+              In t (ks_get proj_eqb (c_ptgts c) q) /\ ~ (q = p /\ In t tgts).
+Proof. exact unapply_projector_spec. Qed.
+
+(* re-targeting (C13_retarget_messages: unapply from the old target, then apply to the new one): the projector
+   that had exactly the old target has exactly the new one, every other projector keeps its targets, the
+   reverse index follows *)
+Theorem C13_retarget_updates_register : forall c p old new a,
+  PINV c -> (forall t, In t (ks_get proj_eqb (c_ptgts c) p) <-> t = old) ->
+  let c' := apply_projector (unapply_projector c p [old] a) p [new] in
+  PINV c' /\ (forall t, In t (ks_get proj_eqb (c_ptgts c') p) <-> t = new) /\
+  (forall q, q <> p -> forall t, In t (ks_get proj_eqb (c_ptgts c') q) <-> In t (ks_get proj_eqb (c_ptgts c) q)).
+Proof. exact retarget_register. Qed.
+
+Example C13_register_nonvacuous :
+  let p := mkProj 7 2001 1 in let q := mkProj 8 2002 1 in
+  let c := fold_left pstep [PApply p [Some 3%nat]; PApply q [Some 3%nat; Some 4%nat]; PUnapply p [Some 3%nat] false;
+                            PApply p [Some 4%nat]] empty_calc in
+  ks_get proj_eqb (c_ptgts c) p = [Some 4%nat] /\ ks_get proj_eqb (c_ptgts c) q = [Some 3%nat; Some 4%nat] /\
+  ks_get onat_eqb (c_tgtp c) (Some 3%nat) = [q] /\ ks_get onat_eqb (c_tgtp c) (Some 4%nat) = [q; p].
+Proof. vm_compute. repeat split. Qed.
+
 Print Assumptions C13_retarget_messages.
 Print Assumptions C13_same_target_noop.
+Print Assumptions C13_register_indexes_agree_after_any_calls.
+Print Assumptions C13_apply_adds_exactly.
+Print Assumptions C13_unapply_removes_exactly.
+Print Assumptions C13_retarget_updates_register.
